@@ -71,6 +71,26 @@ class Transition:
             for v in args.values():
                 if isinstance(v, OpaqueBytes) and is_sym(v.len):
                     small.append(v.len <= 40)
+            def margins(ex_, pre=pre, args=args):
+                # stored instants and time arguments lie at least a minute away from the clock readings of the step,
+                # and the step itself takes under a millisecond
+                nows = stdlib.clock(ex_)['nows']
+                if not nows:
+                    return []
+                cs = [nows[-1] - nows[0] <= 10**6]
+                vals = []
+                for e_, rows in pre.items():
+                    for r in rows:
+                        for c in ex_.xp.schema.ent[e_]:
+                            if c.kind == 'time' and is_sym(r.v[c.name]):
+                                vals.append(r.v[c.name])
+                for k, v in args.items():
+                    if k == 'time' and is_sym(v):
+                        vals.append(v)
+                for v in vals:
+                    cs.append(z3.Or(v <= nows[0] - 60 * 10**9, v >= nows[-1] + 60 * 10**9))
+                return cs
+            ex.env['replay_margins'] = margins
             err, res = T.call(ex, db, args)
             S = Step(pre, db.t, args, list(stdlib.clock(ex)['nows']), err, res)
             S.events = ex.events
@@ -85,7 +105,7 @@ class Transition:
             for label, f in T.oracle(ex, S):
                 ob.verify(ex, label, f, describe, replay=mk_replay(label), known=getattr(T, 'known', None))
             # reachability witness, validated against the real build
-            if len(ob.witnesses) < T.witness_count and ex.solver.check(*ex.env.get('small_model', [])) == z3.sat:
+            if len(ob.witnesses) < T.witness_count and ex.solver.check(*(ex.env.get('small_model', []) + margins(ex))) == z3.sat:
                 m = ex.solver.model()
                 try:
                     ob.witnesses.append(T.scenario(m, db.schema, S))
@@ -127,10 +147,12 @@ class Transition:
         for label, f in self.oracle(ex, S):
             if want_label is not None and label != want_label:
                 continue
+            if verdicts.get(label) == 'violated':
+                continue        # several formulas may share a label: one violated instance is enough
             s = z3.Solver()
             s.add(*cons)
             if f is True:
-                verdicts[label] = 'holds'
+                verdicts.setdefault(label, 'holds')
                 continue
             if f is False:
                 verdicts[label] = 'violated'
